@@ -66,7 +66,10 @@ ASSUMPTIONS = [
     "orders them; success must then still mean strong Wolfe with the given constants)",
     "iteration controllers: GradientNormController, AbsDeltaEnergyController, DeltaEnergyController with an "
     "iteration limit <= 40 (GradInfNormController divides by the energy value and is not used)",
-    "NewtonCG with napprox=0 only (napprox>1 draws random probes)",
+    "NewtonCG with napprox=0 only (napprox>1 draws random probes); nreset in {20, 3, 2}, max_cg_iterations in "
+    "{200, 10, 3, 1}, energy_reduction_factor in {0.1, 0.5, 0.01}",
+    "with DeltaEnergyController a start energy of exactly 0 is shifted to 1 (that controller divides by "
+    "max(|0|, |E(x0)|) in start(); not a C16 matter)",
     "monotonicity is compared without tolerance: oracle and code evaluate the same NumPy function at the same bits",
     "Wolfe slack: 32 ulp of the sum of the magnitudes of the terms of each inequality",
     "L-BFGS histories: y_k = (D_k + u_k u_k^T) s_k with D_k >= 1/2, dyadic entries, s_k != 0 (so s.y > 0 and the "
